@@ -100,7 +100,9 @@ Definition dec_event (k a b : N) : event :=
   | 7 => Replay a
   | 8 => Restart
   | 9 => Keepalive
-  | _ => Abandon
+  | 10 => Abandon
+  | _ => Recv a      (* 11: a KEEPALIVE received under session a.  The slice treats it like a data message (same
+                        path up to the TUN write); in these steps the observed ob_tun carries "accepted" (rx_bytes grew). *)
   end.
 Definition dec_step (l : list N) : event * obs :=
   match l with
